@@ -529,7 +529,7 @@ def mkJson : MK → Json
   | .lines l => Json.arr #["Lines", Json.arr (l.map (fun (n : Nat) => (n : Json))).toArray]
   | .null => Json.arr #["Null"]
 
-/-- `{"op":"motion","gs":[..],"cur":n,"excl":b,"selecting":b,"ws":[b..],"motion":name,"count":n,"appending":b}` -/
+/-- `{"op":"motion","gs":[..],"cur":n,"excl":b,"selecting":b,"ws":[b..],"motion":name,"count":n,"has_verb":b}` -/
 def opMotion (req : Json) : Json :=
   let ws : List Bool := (jarr req "ws").toList.map (fun x => x.getBool?.toOption.getD false)
   let s : MS := ⟨gsOf req, jnat req "cur", jbool req "excl", jbool req "selecting", ws⟩
@@ -540,7 +540,7 @@ def opMotion (req : Json) : Json :=
     | "WholeBuffer" => some .wholeBuffer | _ => none
   match m? with
   | none => Json.mkObj [("err", "motion not modelled")]
-  | some m => Json.mkObj [("mk", mkJson (evalSimple s m (jnat req "count") (jbool req "appending")))]
+  | some m => Json.mkObj [("mk", mkJson (evalSimple s m (jnat req "count") (jbool req "has_verb")))]
 
 /-- `{"op":"word","cls":[0|1|2|3..],"cur":n,"kind":"startFwd"|"endFwd"|"startBwd","big":b,"count":n,"change":b}` -/
 def opWord (req : Json) : Json :=
@@ -553,8 +553,8 @@ def opWord (req : Json) : Json :=
 
 /-- `{"op":"charsearch","gs":[..],"cur":n,"excl":b,"fwd":b,"before":b,"ch":g,"count":n}` -/
 def opCharSearch (req : Json) : Json :=
-  Json.mkObj [("mk", mkJson (evalCharSearch (gsOf req) (jnat req "cur") (jbool req "excl") (jbool req "fwd") (jbool req "before")
-    (jstr req "ch").toList (jnat req "count")))]
+  let s : MS := ⟨gsOf req, jnat req "cur", jbool req "excl", false, []⟩
+  Json.mkObj [("mk", mkJson (evalCharSearch s (jbool req "fwd") (jbool req "before") (jstr req "ch").toList (jnat req "count") (jbool req "has_verb")))]
 
 /-- `{"op":"cursor_after","gs":[..],"cur":n,"excl":b,"mk":[..],"saved_col":n|null}` -/
 def opCursorAfter (req : Json) : Json :=
